@@ -14,6 +14,12 @@ Parts
               Delay-shifted marker lands before them), followed by 0-3 later rows.
   long      : seeded random files of 24-60 rows with many equal onsets,
               several non-colliding Delay shifts, plain tags and n/a rows; definitions come from a sidecar.
+  several   : ONE row carrying two or three Delay-shifted markers (equal and different shifts, in and against text
+              order, landing before / on / after the next row) followed by a row with one marker or none; every shifted
+              marker is its own event at onset + delay.
+  spelling  : the tags Def, Onset, Offset, Inset and Delay written in lower, upper and mixed case (HED tags are
+              case-insensitive): short histories, the Delay layouts and the 'several' files again, judged by the same
+              oracle; a mismatch that disappears with the canonical spelling is reported as C10.*.case_insensitive.
 """
 import io
 import itertools
@@ -212,25 +218,39 @@ def consistent_with_some_row_order(rows, observed, times, rows_of, max_perms=200
 # ----------------------------------------------------------------------------------------------------------------
 # building the file and reading the issues
 # ----------------------------------------------------------------------------------------------------------------
-def marker_text(kind, name, delay, variant=0):
-    parts = [f"Def/{name}", kind]
+STYLES = {0: "canonical", 1: "lower", 2: "upper", 3: "mixed"}
+
+
+def spell(word, style, k=0):
+    """a reserved tag name in the letter case of `style`; mixed: alternating case, starting case alternates with k"""
+    if style == 1:
+        return word.lower()
+    if style == 2:
+        return word.upper()
+    if style == 3:
+        return "".join(ch.upper() if (j + k) % 2 else ch.lower() for j, ch in enumerate(word))
+    return word
+
+
+def marker_text(kind, name, delay, variant=0, style=0):
+    parts = [f"{spell('Def', style, variant)}/{name}", spell(kind, style, variant)]
     if kind == "Onset" and variant % 3 == 1:
         parts.append("(Green)")             # an Onset may carry one content group
     if delay is not None:
-        parts.append(f"Delay/{delay:g} s")
+        parts.append(f"{spell('Delay', style, variant)}/{delay:g} s")
     if variant % 2:
         parts.reverse()
     return "(" + ", ".join(parts) + ")"
 
 
-def rows_to_frame(rows, extras=None):
+def rows_to_frame(rows, extras=None, style=0):
     import pandas as pd
     onsets, heds = [], []
     k = 0
     for r, (t, markers) in enumerate(rows):
         cells = []
         for (kind, name, delay) in markers:
-            cells.append(marker_text(kind, name, delay, k))
+            cells.append(marker_text(kind, name, delay, k, style))
             k += 1
         if extras and extras[r]:
             cells.append(extras[r])
@@ -239,8 +259,9 @@ def rows_to_frame(rows, extras=None):
     return pd.DataFrame({"onset": onsets, "HED": heds})
 
 
-_OFF = re.compile(r"^Offset tag '[Dd]ef/(.*?)' does not have a matching onset")
-_INS = re.compile(r"^Inset tag '[Dd]ef/(.*?)' does not have a matching onset")
+# the messages quote the tags as written in the file (or as re-rendered for a Delay-shifted group): any letter case
+_OFF = re.compile(r"^Offset tag '(?i:def)/(.*?)' does not have a matching onset")
+_INS = re.compile(r"^Inset tag '(?i:def)/(.*?)' does not have a matching onset")
 _DUP = re.compile(r"^'(\w+)' uses name '(.*?)', which was already used at this onset time")
 
 
@@ -261,7 +282,7 @@ def read_issues(issues):
             continue
         a = _DUP.match(m)
         if a:
-            out.append((row, "dup:" + a.group(1), a.group(2).casefold()))
+            out.append((row, "dup:" + a.group(1).capitalize(), a.group(2).casefold()))
             continue
         other.append((row, m[:120]))
     return out, other
@@ -278,10 +299,10 @@ def _defs():
     return _state["dd"]
 
 
-def validate_rows(rows, extras=None, use_sidecar=False):
+def validate_rows(rows, extras=None, use_sidecar=False, style=0):
     from hed.models import TabularInput, Sidecar
     dd = _defs()
-    df = rows_to_frame(rows, extras)
+    df = rows_to_frame(rows, extras, style)
     if use_sidecar:
         sc = Sidecar(io.StringIO(_state["sidecar_text"]))
         return TabularInput(df, sidecar=sc, name="c10").validate(schema())
@@ -309,11 +330,11 @@ def match_rows(expected, observed, rows_of):
     return rec(0)
 
 
-def check_case(rows, extras=None, use_sidecar=False):
+def check_case(rows, extras=None, use_sidecar=False, style=0):
     """returns (list of (clause, observed, expected), delay-tie ambiguity flag)"""
     fails = []
     try:
-        issues = validate_rows(rows, extras, use_sidecar)
+        issues = validate_rows(rows, extras, use_sidecar, style)
     except Exception as e:  # noqa
         return [("C10.validate.total", f"{type(e).__name__}: {str(e)[:200]}", "no exception")], False
     observed, other = read_issues(issues)
@@ -351,6 +372,58 @@ def check_case(rows, extras=None, use_sidecar=False):
     return fails, ambiguous
 
 
+L_CASE_DELAY = "C10.delay.case_insensitive"
+L_CASE_MARKER = "C10.marker.case_insensitive"
+L_SEVERAL = "C10.delay.several_groups_in_one_row"
+
+
+def has_delay(rows):
+    return any(d is not None for _, ms in rows for (_, _, d) in ms)
+
+
+def several_delays_in_a_row(rows):
+    return any(sum(d is not None for (_, _, d) in ms) > 1 for _, ms in rows)
+
+
+def one_delay_per_row(rows, extras=None):
+    """the same history with every further Delay-shifted marker of a row moved to a row of its own (same onset, directly
+    after): same time points, same order of effect"""
+    out, ex = [], []
+    for r, (t, markers) in enumerate(rows):
+        first, more, seen = [], [], False
+        for m in markers:
+            if m[2] is not None and seen:
+                more.append(m)
+            else:
+                first.append(m)
+                seen = seen or m[2] is not None
+        out.append((t, first))
+        ex.append(extras[r] if extras else "")
+        for m in more:
+            out.append((t, [m]))
+            ex.append("")
+    return out, (ex if extras else None)
+
+
+def judge(rows, extras=None, use_sidecar=False, style=0):
+    """check_case + attribution of a mismatch to the narrow requirement it depends on: the letter case of the reserved
+    tags (the canonical spelling of the same file is judged correct) or several Delay groups sharing a row (the same
+    history with one Delay group per row is judged correct)"""
+    fails, amb = check_case(rows, extras, use_sidecar, style)
+    if not fails:
+        return fails, amb
+    if style and not check_case(rows, extras, use_sidecar, 0)[0]:
+        label = L_CASE_DELAY if has_delay(rows) else L_CASE_MARKER
+        return [(label, obs, {"expected": exp, "clause": cl, "note": "no mismatch with the canonical spelling"})
+                for cl, obs, exp in fails], amb
+    if several_delays_in_a_row(rows):
+        rows2, extras2 = one_delay_per_row(rows, extras)
+        if not check_case(rows2, extras2, use_sidecar, style)[0]:
+            return [(L_SEVERAL, obs, {"expected": exp, "clause": cl, "note": "no mismatch with one Delay group per row"})
+                    for cl, obs, exp in fails], amb
+    return fails, amb
+
+
 # ----------------------------------------------------------------------------------------------------------------
 # enumeration
 # ----------------------------------------------------------------------------------------------------------------
@@ -379,6 +452,65 @@ def rows_from(markers, layout, delay):
 
 
 def gen_cases(quick):
+    """yield (part, rows, style)"""
+    for part, rows in gen_canonical(quick):
+        yield (part, rows, 0)
+    yield from gen_several(quick)
+    yield from gen_spelling(quick)
+
+
+def gen_several(quick):
+    """one row (time 0) with two or three Delay-shifted markers, then a row at time 1 with one marker or none.
+    Shifts: 0.5 (before the next row), 1 (on it), 1.5 (after it).  Letter-case styles rotate over the files."""
+    sym = [(k, n) for k in KINDS for n in NAMES_SMALL]
+    sym2 = sym if quick else sym + [(k, "Bb") for k in KINDS]
+    nexts = [None] + sym
+    no = 0
+    for a, b in itertools.product(sym2, repeat=2):
+        for da, db in itertools.product((0.5, 1.0, 1.5), repeat=2):
+            for nx in nexts:
+                for first in ([None] if quick else [None, ("Onset", "Aa"), ("Offset", "aa")]):
+                    row0 = ([first + (None,)] if first else []) + [a + (da,), b + (db,)]
+                    no += 1
+                    yield ("several", [(0.0, row0), (1.0, [nx + (None,)] if nx else [])], no % 4)
+    triples = [(0.5, 0.5, 0.5), (1.5, 0.5, 1.0), (0.5, 1.5, 0.5)] + ([] if quick else [(1.5, 1.5, 0.5), (1.0, 1.0, 1.0)])
+    nexts3 = [None, ("Onset", "Aa"), ("Offset", "aa"), ("Inset", "Aa")] if quick else nexts
+    for a, b, c in itertools.product(sym, repeat=3):
+        for da, db, dc in triples:
+            for nx in nexts3:
+                no += 1
+                yield ("several", [(0.0, [a + (da,), b + (db,), c + (dc,)]), (1.0, [nx + (None,)] if nx else [])], no % 4)
+    # two names, three rows: (Def/Aa, Onset, Delay/x), (Def/Bb, Onset, Delay/y) | use of Aa | use of Bb
+    for k1, k2 in itertools.product(KINDS, repeat=2):
+        for da, db in itertools.product((0.5, 1.5, 2.5), repeat=2):
+            for u1, u2 in itertools.product(("Offset", "Inset"), repeat=2):
+                no += 1
+                yield ("several", [(0.0, [(k1, "Aa", da), (k2, "Bb", db)]), (1.0, [(u1, "aa", None)]),
+                                   (2.0, [(u2, "bB", None)])], no % 4)
+
+
+def gen_spelling(quick):
+    """respelled copies (lower / upper / mixed case of Def, Onset, Offset, Inset, Delay) of canonical files"""
+    no = 0
+    lay_len = 3 if quick else 4
+    for part, rows in gen_canonical(quick):
+        n = sum(len(ms) for _, ms in rows)
+        if part == "histories" and n <= 2:
+            styles = (1, 2, 3)
+        elif part == "layouts" and has_delay(rows) and n <= 2:
+            styles = (1, 2, 3)
+        elif part == "layouts" and has_delay(rows) and n == 3:
+            no += 1
+            if quick and no % 2:
+                continue
+            styles = (1 + (no // 2) % 3,)
+        else:
+            continue
+        for st in styles:
+            yield ("spelling", rows, st)
+
+
+def gen_canonical(quick):
     """yield (part, rows)"""
     # histories: canonical layout
     full_len = 3 if quick else 4
@@ -437,18 +569,19 @@ def _worker(chunk):
     schema()
     out = []
     amb = 0
-    for part, rows in chunk:
-        fails, ambiguous = check_case(rows)
+    for part, rows, style in chunk:
+        fails, ambiguous = judge(rows, style=style)
         amb += ambiguous
         for clause, obs, exp in fails:
-            out.append((clause, {"part": part, "rows": _rows_json(rows)}, obs, exp))
+            out.append((clause, {"part": part, "rows": _rows_json(rows), "style": style,
+                                 "file": rows_to_frame(rows, None, style).values.tolist()}, obs, exp))
     return len(chunk), amb, out
 
 
 def _long_worker(args):
     rows, extras = args
     schema()
-    fails, _ = check_case(rows, extras, use_sidecar=True)
+    fails, _ = judge(rows, extras, use_sidecar=True)
     return [(clause, {"part": "long", "rows": _rows_json(rows), "extras": extras, "sidecar": True}, obs, exp)
             for clause, obs, exp in fails]
 
@@ -467,13 +600,16 @@ def run(w: Workload):
               "over {Onset,Offset,Inset} x {Aa,aa} up to length 3 (quick) / 4 x every layout (same row | equal-onset row | "
               "later row per boundary) x (no Delay | one marker delayed by 0/0.5/1/2/10 s; at the longest length 0.5/1 s and "
               "first name 'Aa'); ties: 2-3 equal-onset single-marker rows after an unrelated Delay-shifted marker, 0-3 "
-              "later rows; long: seeded random files of 24-60 rows.  Distinct = distinct file (rows, markers, delays).")
+              "later rows; long: seeded random files of 24-60 rows; several: one row with 2-3 Delay-shifted markers "
+              "(shifts before/on/after the next row, equal and different, in and against text order) + a following row; "
+              "spelling: Def/Onset/Offset/Inset/Delay in lower, upper, mixed case for short histories, Delay layouts and "
+              "the 'several' files.  Distinct = distinct file (rows, markers, delays, spelling).")
     cases = list(gen_cases(w.quick))
     counts = {}
     for c in cases:
         counts[c[0]] = counts.get(c[0], 0) + 1
-        w.case((c[0], json.dumps(_rows_json(c[1]))), nontrivial=True,
-               sample={"part": c[0], "rows": _rows_json(c[1])})
+        w.case((c[0], json.dumps(_rows_json(c[1])), c[2]), nontrivial=True,
+               sample={"part": c[0], "rows": _rows_json(c[1]), "style": STYLES[c[2]]})
     chunks = [cases[i:i + 200] for i in range(0, len(cases), 200)]
     records = []
     amb = 0
@@ -499,6 +635,17 @@ def run(w: Workload):
     w.part("ties", cases=counts.get("ties", 0),
            bound="one unrelated marker delayed by 0.5 s, then 2-3 equal-onset rows with one marker each over "
                  "{Onset,Offset,Inset} x {Aa,aa}, then 0-3 later rows", exhaustive=True)
+    w.part("several", cases=counts.get("several", 0),
+           bound="row at time 0 with two Delay-shifted markers (6 symbols%s each, shifts {0.5,1,1.5}^2%s) or three (6 symbols "
+                 "each, %d shift triples), then a row at time 1 with one of %s markers or none; 324 files with two names "
+                 "(Aa, Bb shifted by {0.5,1.5,2.5}^2, used at times 1 and 2); letter-case style of the reserved tags rotates "
+                 "canonical/lower/upper/mixed" % (("", "", 3, "6 (3 after three groups)") if w.quick else
+                                                  (" + 3 Bb symbols", ", optional unshifted marker in front", 5, "6")),
+           exhaustive=True)
+    w.part("spelling", cases=counts.get("spelling", 0),
+           bound="lower, upper and mixed-case copies of the histories with <=2 markers and of the Delay layouts with <=2 "
+                 "markers; one of the three spellings for %s Delay layout with 3 markers" % ("every second" if w.quick else "every"),
+           exhaustive=True)
     w.part("long", cases=len(long_cases), bound="seeded random files, 24-60 rows, definitions from a sidecar",
            exhaustive=False)
     w.exhaustive = True
@@ -517,7 +664,8 @@ def run(w: Workload):
     w.not_covered += [
         "files whose onsets are not in order (outside 'time-ordered events file')",
         "structural faults of a temporal group (no Def, two Defs, extra groups, value arity) - validate_onset_offset",
-        "more than one Delay-shifted marker in the exhaustive parts (only in the random long files, without ties)",
+        "more than one Delay-shifted marker per file outside the parts 'several' (one row holds them all) and 'long'",
+        "letter case of the unit of a Delay value and Delay values in other units (rt.c07)",
         "onset cells that are not numbers (n/a onsets)",
     ]
 
@@ -525,7 +673,7 @@ def run(w: Workload):
 def replay(w: Workload, case: dict):
     inp = case["input"]
     rows = _rows_from_json(inp["rows"])
-    fails, _ = check_case(rows, inp.get("extras"), use_sidecar=bool(inp.get("sidecar")))
+    fails, _ = judge(rows, inp.get("extras"), use_sidecar=bool(inp.get("sidecar")), style=int(inp.get("style") or 0))
     for clause, obs, exp in fails:
         w.fail(clause, inp, observed=obs, expected=exp)
 
